@@ -29,7 +29,7 @@ func (fr *Frame) pow2(n string) string {
 	}
 	t := sApp("pow2", n)
 	key := "pow2:" + n
-	if !fc.declSet[key] {
+	if !fc.declSet[key] && !reBoundVar.MatchString(n) {
 		fc.declSet[key] = true
 		fc.permFact(sApp(">=", t, "1"))
 		fc.permFact(sImp(sEq(n, "0"), sEq(t, "1")))
@@ -50,7 +50,7 @@ func (fr *Frame) bitlenOf(x string) string {
 	fc := fr.fc
 	t := sApp("bitlen", sApp("absI", x))
 	key := "bitlen:" + x
-	if !fc.declSet[key] {
+	if !fc.declSet[key] && !reBoundVar.MatchString(x) {
 		fc.declSet[key] = true
 		ax := sApp("absI", x)
 		p := fr.pow2(t)
@@ -465,6 +465,7 @@ func (fr *Frame) bigMethod(b *ssa.BasicBlock, st *State, m string, args []Val, r
 		nb := sIte(sEq(xr, "0"), curBV, sStore(curBV, xr, cx))
 		nb = sIte(sEq(yr, "0"), nb, sStore(nb, yr, cy))
 		nb = sStore(nb, z, g)
+		fr.checkLoopWrite(hBV, z)
 		fc.logWrite(hBV, xr)
 		fc.logWrite(hBV, yr)
 		fc.logWrite(hBV, z)
